@@ -500,9 +500,21 @@ func (rule *overlappingFieldsCanBeMergedRule) getFieldsAndFragmentNames(parentTy
 				if parentType, ok := parentType.(*Interface); ok && parentType != nil {
 					fieldDef, _ = parentType.Fields()[fieldName]
 				}
-				if fieldDef == nil && fieldName == TypeNameMetaFieldDef.Name && parentType != nil {
-					// __typename is selectable on every composite type and has a response shape too
-					fieldDef = TypeNameMetaFieldDef
+				if fieldDef == nil && parentType != nil {
+					// meta fields have a response shape too: __typename on every composite
+					// type, __schema and __type on the query root
+					switch fieldName {
+					case TypeNameMetaFieldDef.Name:
+						fieldDef = TypeNameMetaFieldDef
+					case SchemaMetaFieldDef.Name:
+						if rule.context.Schema().QueryType() == parentType {
+							fieldDef = SchemaMetaFieldDef
+						}
+					case TypeMetaFieldDef.Name:
+						if rule.context.Schema().QueryType() == parentType {
+							fieldDef = TypeMetaFieldDef
+						}
+					}
 				}
 
 				responseName := fieldName
